@@ -1,4 +1,392 @@
-import BipVerif.Model.Mnemonics
+/-
+C02 — mnemonic → seed.
+
+The seed generators are literally the published formulas on the *validated* sentence:
+* BIP-39: PBKDF2-HMAC-SHA512(password = normalised words joined by single spaces,
+  salt = NFKD("mnemonic" ‖ passphrase), 2048 rounds, 64 bytes);
+* Substrate: the same KDF with the *entropy* as password;
+* Electrum v2: the BIP-39 formula (salt prefix "electrum") on a sentence that passed the version check;
+* Electrum v1: 100000 rounds of `h ↦ SHA-256(h ‖ hex(entropy))` from `hex(entropy)`.
+An invalid sentence never yields a seed (the decoder's error is propagated unchanged), the seed
+length is fixed, and the seed only depends on the normalised sentence (whitespace / ASCII case of the
+raw string are irrelevant).
+-/
+import BipVerif.Lemmas.Seed
+
 namespace BipVerif.Props.C02
-theorem placeholder : True := trivial
+open BipVerif BipVerif.Prim BipVerif.Model BipVerif.Model.SeedLemmas
+
+variable (H : Bytes → Bytes) (langs : List (List Nat)) (lang : Option (List Nat))
+
+/-! ### BIP-39 -/
+
+/-- the seed of a valid sentence is the published KDF formula -/
+theorem seed_eq_kdf_definition (ws : List Nat) (salt : Bytes) (e : Bytes)
+    (h : bip39Decode H langs lang ws = .ok e) :
+    bip39Seed H langs lang ws salt = .ok (pbkdf2HmacSha512 (sentenceBytes ws) salt 2048 64) := by
+  unfold bip39Seed
+  rw [h]; rfl
+
+/-- an invalid sentence never yields a seed; the decoder's error is the generator's error -/
+theorem invalid_no_seed (ws : List Nat) (salt : Bytes) (e : Err)
+    (h : bip39Decode H langs lang ws = .error e) :
+    bip39Seed H langs lang ws salt = .error e := by
+  unfold bip39Seed
+  rw [h]; rfl
+
+/-- a seed exists exactly for the sentences the decoder accepts, and then it is the formula -/
+theorem seed_ok_iff (ws : List Nat) (salt s : Bytes) :
+    bip39Seed H langs lang ws salt = .ok s ↔
+      (∃ e, bip39Decode H langs lang ws = .ok e) ∧
+        s = pbkdf2HmacSha512 (sentenceBytes ws) salt 2048 64 := by
+  cases hd : bip39Decode H langs lang ws with
+  | ok e =>
+    rw [seed_eq_kdf_definition H langs lang ws salt e hd]
+    constructor
+    · intro h; cases h; exact ⟨⟨e, rfl⟩, rfl⟩
+    · rintro ⟨_, rfl⟩; rfl
+  | error e =>
+    rw [invalid_no_seed H langs lang ws salt e hd]
+    constructor
+    · intro h; cases h
+    · rintro ⟨⟨e', he'⟩, _⟩; cases he'
+
+theorem seed_length (ws : List Nat) (salt s : Bytes)
+    (h : bip39Seed H langs lang ws salt = .ok s) : s.length = 64 := by
+  rw [((seed_ok_iff H langs lang ws salt s).1 h).2]
+  exact pbkdf2HmacSha512_length _ _ _ _
+
+/-! ### from the raw string -/
+
+/-- `Bip39SeedGenerator(str)`: split / lower / NFKD, then the generator -/
+def bip39SeedOfString (oracle : List (List Char × List Char)) (s : List Char) (salt : Bytes) :
+    R Bytes := do
+  let ws ← bip39Sentence oracle s
+  bip39Seed H langs lang ws salt
+
+/-- raw strings with the same normalisation (letter case, amount and kind of whitespace,
+canonically equivalent spellings) give the identical seed — or the identical refusal -/
+theorem seed_congr_sentence (oracle : List (List Char × List Char)) (s s' : List Char)
+    (salt : Bytes) (h : bip39Sentence oracle s = bip39Sentence oracle s') :
+    bip39SeedOfString H langs lang oracle s salt = bip39SeedOfString H langs lang oracle s' salt := by
+  unfold bip39SeedOfString
+  rw [h]
+
+/-- the normalised sentence only depends on the tokens -/
+theorem sentence_congr_tokens (oracle : List (List Char × List Char)) (s s' : List Char)
+    (h : splitWs s = splitWs s') : bip39Sentence oracle s = bip39Sentence oracle s' := by
+  unfold bip39Sentence
+  rw [h]
+
+/-- … and only on the normalised tokens -/
+theorem sentence_congr_norm (oracle : List (List Char × List Char)) (s s' : List Char)
+    (h : (splitWs s).mapM (normToken oracle) = (splitWs s').mapM (normToken oracle)) :
+    bip39Sentence oracle s = bip39Sentence oracle s' := by
+  unfold bip39Sentence
+  rw [h]
+
+/-! #### whitespace -/
+
+/-- space, tab, newline, carriage return are whitespace for `str.split()` -/
+theorem isSpace_ascii :
+    splitWs.isSpace ' ' = true ∧ splitWs.isSpace '\t' = true ∧ splitWs.isSpace '\n' = true ∧
+      splitWs.isSpace '\r' = true := by decide
+
+/-- a run of ASCII blanks -/
+def AsciiBlank (b : List Char) : Prop := ∀ c ∈ b, c = ' ' ∨ c = '\t' ∨ c = '\n' ∨ c = '\r'
+
+theorem blank_of_asciiBlank {b : List Char} (h : AsciiBlank b) : Blank b := by
+  intro c hc
+  rcases h c hc with rfl | rfl | rfl | rfl
+  · exact isSpace_ascii.1
+  · exact isSpace_ascii.2.1
+  · exact isSpace_ascii.2.2.1
+  · exact isSpace_ascii.2.2.2
+
+/-- leading spaces are ignored -/
+theorem splitWs_leading_spaces (k : Nat) (s : List Char) :
+    splitWs (List.replicate k ' ' ++ s) = splitWs s :=
+  splitWs_blank_append (blank_replicate isSpace_ascii.1 k) s
+
+/-- trailing spaces are ignored -/
+theorem splitWs_trailing_spaces (k : Nat) (s : List Char) :
+    splitWs (s ++ List.replicate k ' ') = splitWs s :=
+  splitWs_append_blank (blank_replicate isSpace_ascii.1 k) s
+
+/-- leading / trailing whitespace of any kind is ignored -/
+theorem splitWs_strip (b b' s : List Char) (hb : Blank b) (hb' : Blank b') :
+    splitWs (b ++ s ++ b') = splitWs s := by
+  rw [splitWs_append_blank hb', splitWs_blank_append hb]
+
+/-- one space between two parts is as good as `k+1` spaces -/
+theorem splitWs_inner_spaces (k : Nat) (s s' : List Char) :
+    splitWs (s ++ List.replicate (k + 1) ' ' ++ s') = splitWs (s ++ [' '] ++ s') :=
+  splitWs_blank_run (b := [' ']) (b' := List.replicate k ' ')
+    (blank_replicate isSpace_ascii.1 1) (by simp) (blank_replicate isSpace_ascii.1 k) s s'
+
+/-- any non-empty whitespace run between two parts is as good as a single space -/
+theorem splitWs_inner_blank {b : List Char} (hb : Blank b) (hne : b ≠ []) (s s' : List Char) :
+    splitWs (s ++ b ++ s') = splitWs (s ++ [' '] ++ s') := by
+  have h1 : Blank [' '] := blank_replicate isSpace_ascii.1 1
+  unfold splitWs
+  rw [List.append_assoc, List.append_assoc s [' '] s']
+  apply go_congr_suffix s
+  intro cur acc
+  rw [go_blank hb hne, go_blank h1 (by simp)]
+
+/-- **Structured statement**: optional leading blanks, a first word, (non-empty blank run, word)
+pairs, optional trailing blanks — the tokens are exactly the words, whatever the blank runs are. -/
+theorem splitWs_words (lead w0 : List Char) (items : List (List Char × List Char))
+    (trail : List Char) (hl : Blank lead) (hw0 : BlankFree w0) (hne : w0 ≠ [])
+    (hi : GoodItems items) (ht : Blank trail) :
+    splitWs (lead ++ w0 ++ render items ++ trail) = w0 :: items.map (·.2) :=
+  splitWs_sentence lead w0 items trail hl hw0 hne hi ht
+
+/-- two renderings of the same words with arbitrary (legal) blank runs have the same tokens, hence
+the same normalised sentence and the same seed -/
+theorem seed_whitespace_irrelevant (oracle : List (List Char × List Char)) (salt : Bytes)
+    (lead lead' w0 trail trail' : List Char) (items items' : List (List Char × List Char))
+    (hl : Blank lead) (hl' : Blank lead') (hw0 : BlankFree w0) (hne : w0 ≠ [])
+    (hi : GoodItems items) (hi' : GoodItems items') (ht : Blank trail) (ht' : Blank trail')
+    (hsame : items.map (·.2) = items'.map (·.2)) :
+    bip39SeedOfString H langs lang oracle (lead ++ w0 ++ render items ++ trail) salt
+      = bip39SeedOfString H langs lang oracle (lead' ++ w0 ++ render items' ++ trail') salt := by
+  apply seed_congr_sentence
+  apply sentence_congr_tokens
+  rw [splitWs_sentence lead w0 items trail hl hw0 hne hi ht,
+    splitWs_sentence lead' w0 items' trail' hl' hw0 hne hi' ht', hsame]
+
+/-! #### letter case -/
+
+/-- ASCII tokens are normalised natively, by lower-casing -/
+theorem normToken_ascii_eq (oracle : List (List Char × List Char)) (w : List Char)
+    (h : ∀ c ∈ w, c.toNat < 128) : normToken oracle w = .ok (w.map asciiLower) :=
+  normToken_ascii oracle h
+
+/-- upper-casing an ASCII token does not change its normalisation (no oracle involved) -/
+theorem normToken_upper (oracle : List (List Char × List Char)) (w : List Char)
+    (h : ∀ c ∈ w, c.toNat < 128) : normToken oracle (w.map Char.toUpper) = normToken oracle w := by
+  rw [normToken_ascii oracle h, normToken_ascii oracle]
+  · rw [List.map_map]
+    congr 1
+    apply List.map_congr_left
+    intro c hc
+    exact (ascii_case (h c hc)).1
+  · intro c hc
+    obtain ⟨d, hd, rfl⟩ := List.mem_map.1 hc
+    exact (ascii_case (h d hd)).2.2.1
+
+/-- lower-casing neither -/
+theorem normToken_lower (oracle : List (List Char × List Char)) (w : List Char)
+    (h : ∀ c ∈ w, c.toNat < 128) : normToken oracle (w.map Char.toLower) = normToken oracle w := by
+  rw [normToken_ascii oracle h, normToken_ascii oracle]
+  · rw [List.map_map]
+    congr 1
+    apply List.map_congr_left
+    intro c hc
+    exact (ascii_case (h c hc)).2.1
+  · intro c hc
+    obtain ⟨d, hd, rfl⟩ := List.mem_map.1 hc
+    exact (ascii_case (h d hd)).2.2.2
+
+/-- any per-character mixture of cases: if two ASCII tokens agree after lower-casing they normalise
+identically -/
+theorem normToken_case_insensitive (oracle : List (List Char × List Char)) (w w' : List Char)
+    (h : ∀ c ∈ w, c.toNat < 128) (h' : ∀ c ∈ w', c.toNat < 128)
+    (heq : w.map Char.toLower = w'.map Char.toLower) : normToken oracle w = normToken oracle w' := by
+  rw [← normToken_lower oracle w h, ← normToken_lower oracle w' h', heq]
+
+
+/-- **Letter case of an ASCII sentence is irrelevant**: the normalised sentence of the upper-cased
+string is that of the string -/
+theorem sentence_upper (oracle : List (List Char × List Char)) (s : List Char)
+    (h : ∀ c ∈ s, c.toNat < 128) :
+    bip39Sentence oracle (s.map Char.toUpper) = bip39Sentence oracle s := by
+  apply sentence_congr_norm
+  rw [splitWs_map Char.toUpper s (fun c hc => (ascii_space (h c hc)).1)]
+  apply mapM_map_congr
+  intro t ht
+  exact normToken_upper oracle t (splitWs_forall (fun c => c.toNat < 128) s h t ht)
+
+theorem sentence_lower (oracle : List (List Char × List Char)) (s : List Char)
+    (h : ∀ c ∈ s, c.toNat < 128) :
+    bip39Sentence oracle (s.map Char.toLower) = bip39Sentence oracle s := by
+  apply sentence_congr_norm
+  rw [splitWs_map Char.toLower s (fun c hc => (ascii_space (h c hc)).2)]
+  apply mapM_map_congr
+  intro t ht
+  exact normToken_lower oracle t (splitWs_forall (fun c => c.toNat < 128) s h t ht)
+
+/-- two ASCII strings that differ only in letter case give the identical seed -/
+theorem seed_case_irrelevant (oracle : List (List Char × List Char)) (salt : Bytes)
+    (s s' : List Char) (h : ∀ c ∈ s, c.toNat < 128) (h' : ∀ c ∈ s', c.toNat < 128)
+    (heq : s.map Char.toLower = s'.map Char.toLower) :
+    bip39SeedOfString H langs lang oracle s salt = bip39SeedOfString H langs lang oracle s' salt := by
+  apply seed_congr_sentence
+  rw [← sentence_lower oracle s h, ← sentence_lower oracle s' h', heq]
+
+/-! ### Substrate (password = entropy) -/
+
+theorem substrate_seed_eq_kdf_definition (ws : List Nat) (salt ent : Bytes)
+    (h : bip39Decode H langs lang ws = .ok ent) :
+    substrateSeed H langs lang ws salt = .ok (pbkdf2HmacSha512 ent salt 2048 64) := by
+  unfold substrateSeed
+  rw [h]; rfl
+
+theorem substrate_invalid_no_seed (ws : List Nat) (salt : Bytes) (e : Err)
+    (h : bip39Decode H langs lang ws = .error e) :
+    substrateSeed H langs lang ws salt = .error e := by
+  unfold substrateSeed
+  rw [h]; rfl
+
+theorem substrate_seed_ok_iff (ws : List Nat) (salt s : Bytes) :
+    substrateSeed H langs lang ws salt = .ok s ↔
+      ∃ ent, bip39Decode H langs lang ws = .ok ent ∧ s = pbkdf2HmacSha512 ent salt 2048 64 := by
+  cases hd : bip39Decode H langs lang ws with
+  | ok e =>
+    rw [substrate_seed_eq_kdf_definition H langs lang ws salt e hd]
+    constructor
+    · intro h; cases h; exact ⟨e, rfl, rfl⟩
+    · rintro ⟨e', he', rfl⟩; cases he'; rfl
+  | error e =>
+    rw [substrate_invalid_no_seed H langs lang ws salt e hd]
+    constructor
+    · intro h; cases h
+    · rintro ⟨e', he', _⟩; cases he'
+
+theorem substrate_seed_length (ws : List Nat) (salt s : Bytes)
+    (h : substrateSeed H langs lang ws salt = .ok s) : s.length = 64 := by
+  obtain ⟨ent, _, rfl⟩ := (substrate_seed_ok_iff H langs lang ws salt s).1 h
+  exact pbkdf2HmacSha512_length _ _ _ _
+
+/-! ### Electrum v2 -/
+
+/-- the checks `ElectrumV2SeedGenerator` performs before deriving -/
+def V2Accepts (valid : List Nat → Bool) (ws : List Nat) : Prop :=
+  (ws.length = 12 ∨ ws.length = 24) ∧ valid ws = true
+
+theorem electrumV2_seed_eq_kdf_definition (valid : List Nat → Bool) (ws : List Nat)
+    (salt e : Bytes) (hv : V2Accepts valid ws) (h : electrumV2DecodeIdx langs lang ws = .ok e) :
+    electrumV2Seed valid langs lang ws salt
+      = .ok (pbkdf2HmacSha512 (sentenceBytes ws) salt 2048 64) := by
+  obtain ⟨hl, hv⟩ := hv
+  have hl' : (decide (ws.length = 12) || decide (ws.length = 24)) = true := by
+    rcases hl with hl | hl <;> simp [hl]
+  unfold electrumV2Seed
+  simp only [hl', hv, Bool.not_true, Bool.false_eq_true, if_false, h]
+  rfl
+
+/-- wrong word count or failed version check: refused with `ValueError` -/
+theorem electrumV2_rejected_no_seed (valid : List Nat → Bool) (ws : List Nat) (salt : Bytes)
+    (hv : ¬ V2Accepts valid ws) : electrumV2Seed valid langs lang ws salt = .error .value := by
+  unfold electrumV2Seed
+  by_cases hl : (decide (ws.length = 12) || decide (ws.length = 24)) = true
+  · have hv' : valid ws = false := by
+      cases hvv : valid ws with
+      | false => rfl
+      | true =>
+        exfalso; apply hv
+        refine ⟨?_, hvv⟩
+        simpa using hl
+    simp only [hl, hv', Bool.not_true, Bool.not_false, Bool.false_eq_true, if_false, if_true]
+    rfl
+  · have hl' : (decide (ws.length = 12) || decide (ws.length = 24)) = false := by
+      simpa using hl
+    simp only [hl', Bool.not_false, if_true]
+    rfl
+
+/-- a sentence the word decoder refuses never yields a seed; once the pre-checks pass the error is
+the decoder's -/
+theorem electrumV2_invalid_no_seed (valid : List Nat → Bool) (ws : List Nat) (salt : Bytes)
+    (e : Err) (hv : V2Accepts valid ws) (h : electrumV2DecodeIdx langs lang ws = .error e) :
+    electrumV2Seed valid langs lang ws salt = .error e := by
+  obtain ⟨hl, hv⟩ := hv
+  have hl' : (decide (ws.length = 12) || decide (ws.length = 24)) = true := by
+    rcases hl with hl | hl <;> simp [hl]
+  unfold electrumV2Seed
+  simp only [hl', hv, Bool.not_true, Bool.false_eq_true, if_false, h]
+  rfl
+
+theorem electrumV2_seed_ok_iff (valid : List Nat → Bool) (ws : List Nat) (salt s : Bytes) :
+    electrumV2Seed valid langs lang ws salt = .ok s ↔
+      V2Accepts valid ws ∧ (∃ e, electrumV2DecodeIdx langs lang ws = .ok e) ∧
+        s = pbkdf2HmacSha512 (sentenceBytes ws) salt 2048 64 := by
+  by_cases hv : V2Accepts valid ws
+  · cases hd : electrumV2DecodeIdx langs lang ws with
+    | ok e =>
+      rw [electrumV2_seed_eq_kdf_definition langs lang valid ws salt e hv hd]
+      constructor
+      · intro h; cases h; exact ⟨hv, ⟨e, rfl⟩, rfl⟩
+      · rintro ⟨_, _, rfl⟩; rfl
+    | error e =>
+      rw [electrumV2_invalid_no_seed langs lang valid ws salt e hv hd]
+      constructor
+      · intro h; cases h
+      · rintro ⟨_, ⟨e', he'⟩, _⟩; cases he'
+  · rw [electrumV2_rejected_no_seed langs lang valid ws salt hv]
+    constructor
+    · intro h; cases h
+    · rintro ⟨hv', _⟩; exact absurd hv' hv
+
+/-- whatever goes wrong (count, version check, unknown word / language): no seed -/
+theorem electrumV2_no_seed_of_decode_error (valid : List Nat → Bool) (ws : List Nat) (salt : Bytes)
+    (e : Err) (h : electrumV2DecodeIdx langs lang ws = .error e) :
+    ∃ e', electrumV2Seed valid langs lang ws salt = .error e' := by
+  by_cases hv : V2Accepts valid ws
+  · exact ⟨e, electrumV2_invalid_no_seed langs lang valid ws salt e hv h⟩
+  · exact ⟨.value, electrumV2_rejected_no_seed langs lang valid ws salt hv⟩
+
+theorem electrumV2_seed_length (valid : List Nat → Bool) (ws : List Nat) (salt s : Bytes)
+    (h : electrumV2Seed valid langs lang ws salt = .ok s) : s.length = 64 := by
+  rw [((electrumV2_seed_ok_iff langs lang valid ws salt s).1 h).2.2]
+  exact pbkdf2HmacSha512_length _ _ _ _
+
+/-! ### Electrum v1 -/
+
+/-- the iterated hash of the old Electrum seed stretching -/
+def v1Stretch (ent : Bytes) : Bytes :=
+  let hexb : Bytes := (Bytes.toHex ent).toUTF8.toList
+  (List.range 100000).foldl (fun h _ => sha256 (h ++ hexb)) hexb
+
+theorem electrumV1_seed_eq_definition (wl ws : List Nat) (ent : Bytes)
+    (h : electrumV1Decode wl ws = .ok ent) : electrumV1Seed wl ws = .ok (v1Stretch ent) := by
+  unfold electrumV1Seed
+  rw [h]; rfl
+
+theorem electrumV1_invalid_no_seed (wl ws : List Nat) (e : Err)
+    (h : electrumV1Decode wl ws = .error e) : electrumV1Seed wl ws = .error e := by
+  unfold electrumV1Seed
+  rw [h]; rfl
+
+theorem electrumV1_seed_ok_iff (wl ws : List Nat) (s : Bytes) :
+    electrumV1Seed wl ws = .ok s ↔ ∃ ent, electrumV1Decode wl ws = .ok ent ∧ s = v1Stretch ent := by
+  cases hd : electrumV1Decode wl ws with
+  | ok e =>
+    rw [electrumV1_seed_eq_definition wl ws e hd]
+    constructor
+    · intro h; exact ⟨e, rfl, (Except.ok.inj h).symm⟩
+    · rintro ⟨e', he', hs⟩; rw [hs]; cases he'; rfl
+  | error e =>
+    rw [electrumV1_invalid_no_seed wl ws e hd]
+    constructor
+    · intro h; cases h
+    · rintro ⟨e', he', _⟩; cases he'
+
+/-- at least one round: the result is a SHA-256 digest -/
+theorem iter_sha256_length (x h0 : Bytes) (n : Nat) (hn : 1 ≤ n) :
+    ((List.range n).foldl (fun h _ => sha256 (h ++ x)) h0).length = 32 := by
+  obtain ⟨k, rfl⟩ : ∃ k, n = k + 1 := ⟨n - 1, by omega⟩
+  rw [List.range_succ, List.foldl_append]
+  exact sha256_length _
+
+theorem v1Stretch_length (ent : Bytes) : (v1Stretch ent).length = 32 := by
+  unfold v1Stretch
+  exact iter_sha256_length _ _ _ (by omega)
+
+theorem electrumV1Seed_length (wl ws : List Nat) (s : Bytes)
+    (h : electrumV1Seed wl ws = .ok s) : s.length = 32 := by
+  obtain ⟨ent, _, hs⟩ := (electrumV1_seed_ok_iff wl ws s).1 h
+  rw [hs]
+  exact v1Stretch_length ent
+
 end BipVerif.Props.C02
